@@ -123,7 +123,10 @@ func (r *Resp) PanicSite() string {
 		if strings.Contains(l, "/verifx/") || strings.Contains(l, "zz_verif_") || strings.Contains(l, "/verif/") {
 			continue
 		}
-		if (strings.Contains(l, "oauth2-proxy") || strings.HasPrefix(l, "/repo/")) && strings.Contains(l, ".go:") {
+		// (the function line identifies repository code also when the tree under test is a scratch worktree)
+		fnLine := strings.TrimSpace(lines[i])
+		repoFn := strings.HasPrefix(fnLine, "github.com/oauth2-proxy/oauth2-proxy/") && !strings.Contains(fnLine, "/verifx/")
+		if (strings.Contains(l, "oauth2-proxy") || strings.HasPrefix(l, "/repo/") || repoFn) && strings.Contains(l, ".go:") {
 			fn := strings.TrimSpace(lines[i])
 			if j := strings.LastIndex(fn, "("); j > 0 {
 				fn = fn[:j]
